@@ -281,27 +281,29 @@ func recovery(idx int64, r *rand.Rand) {
 // concurrentSaturated: N saturated non-drop samples with in-flight == limit delivered to one AIMD limit at the same
 // moment.  Whatever the order, only the first can find in-flight >= limit: the result is exactly one increment.
 func concurrentSaturated(idx int64, r *rand.Rand) {
-	l0 := 1 + r.IntN(500)
-	inc := 1 + r.IntN(4)
-	l := limit.NewAIMDLimit("c07", l0, 0.9, inc, nil)
-	n := 2 + r.IntN(7)
-	bar := lin.NewBarrier(n)
-	var wg sync.WaitGroup
-	for g := 0; g < n; g++ {
-		wg.Add(1)
-		go func() {
-			defer wg.Done()
-			bar.Wait()
-			l.OnSample(0, 1000, l0, false)
-		}()
+	for round := 0; round < 8; round++ {
+		l0 := 1 + r.IntN(500)
+		inc := 1 + r.IntN(4)
+		l := limit.NewAIMDLimit("c07", l0, 0.9, inc, nil)
+		n := 2 + r.IntN(7)
+		bar := lin.NewBarrier(n)
+		var wg sync.WaitGroup
+		for g := 0; g < n; g++ {
+			wg.Add(1)
+			go func() {
+				defer wg.Done()
+				bar.Wait()
+				l.OnSample(0, 1000, l0, false)
+			}()
+		}
+		wg.Wait()
+		rt.Count("concurrent_saturated_rounds", 1)
+		if got := l.EstimatedLimit(); got != l0+inc {
+			rt.Violation("C07/aimd/sample-below-the-limit-raised-estimate/concurrent", idx, rt.J{"start": l0, "increment": inc, "samples_with_inflight_equal_start": n, "final": got, "want": l0 + inc})
+			return
+		}
+		rt.Distinct(fmt.Sprintf("conc|%d|%d|%d", l0, inc, n))
 	}
-	wg.Wait()
-	rt.Count("concurrent_saturated_rounds", 1)
-	if got := l.EstimatedLimit(); got != l0+inc {
-		rt.Violation("C07/aimd/sample-below-the-limit-raised-estimate/concurrent", idx, rt.J{"start": l0, "increment": inc, "samples_with_inflight_equal_start": n, "final": got, "want": l0 + inc})
-		return
-	}
-	rt.Distinct(fmt.Sprintf("conc|%d|%d|%d", l0, inc, n))
 }
 
 // concurrentHealthy: M identical healthy saturated samples (RTT = the baseline, huge in-flight, no drop) reach one
